@@ -33,6 +33,8 @@ RULE = (
     "is_equal_to one rebuilt from the model, and the decomposition checks hold. "
     "Non-trivial: graph with >=1 articulation point and >=2 blocks; history with a deletion followed by a further edit. "
     "Distinct by SHA-1 of the case."
+    " Later additions: nodes added with sequence and rGFA tags, walk queries (path_exists, extract_path) "
+    "after every edit."
 )
 ASSUMPTIONS = ["disconnected inputs to biccs are outside the statement ('for every connected graph')"]
 
